@@ -21,7 +21,7 @@ ID = 'C16'
 LEVEL = 'exploration'
 RULE = ('Three Hypothesis-generated op-list machines. (i) SingletonPoolSink from its Builder over harness connections (open '
         'delay 0-10 ms): Open / Close by holders / request (also several while the first open is pending) / complete / fail '
-        '(connection) / advance, also several holders' Opens and Closes within one turn of the event loop; at the end the remaining holders close and no connection may be left open; at most one live connection, requests between two failures share it, the first request after a '
+        '(connection) / advance, also Opens and Closes of several holders within one turn of the event loop; at the end the remaining holders close and no connection may be left open; at most one live connection, requests between two failures share it, the first request after a '
         'failure gets a fresh one and exactly one is created. (ii) RefCountedSink over a mock sink: Open / Close by several '
         'holders incl. surplus closes and re-open after the last close; underlying Open exactly on 0->1, Close exactly on 1->0, '
         'all holders get the same pending open result. (iii) SharedSinkProvider with a key selector: CreateSink for keys from a '
